@@ -196,8 +196,8 @@ CHECKS["C14"] = dict(
          "register presets at pc 0x1000, plus pc 0x0200 / 0xf000). Each step runs on the real SimulateMsp430 (a subclass logs memory "
          "traffic) and on probe/msp430ref.h, written from the family user's guide; compared: return value, R0-R15 except R3, SR, the byte "
          "write set and the cycle count. Steps the guides leave open (list in DESIGN.md Appendix A) are executed but not judged and "
-         "counted by reason. (ii) Every sequence of up to 3 (quick) / 4 (thorough) items from a 14-item alphabet (immediates, byte "
-         "ops, loop, call, push/pop, byte and word store to the -break_io port, rotate/sxt, dadd) between SP set-up and the final ret, "
+         "counted by reason. (ii) Every sequence of up to 3 (quick) / 4 (thorough) items from a 16-item alphabet (immediates, byte "
+         "ops, loop, call #imm / call Rn / call &abs / call @Rn, push/pop, byte and word store to the -break_io port, rotate/sxt, dadd) between SP set-up and the final ret, "
          "assembled by naken_asm and run by `naken_util -msp430 [-break_io a] -run`: final register dump, reported cycle count and exit "
          "status against the reference run.",
     note="Programs the reference does not finish within 400 instructions (a dec/jnz loop over r14 = 0) are not run.")
